@@ -3,3 +3,6 @@ package oid
 import "encoding/asn1"
 
 var RSAEncryption = asn1.ObjectIdentifier{1, 2, 840, 113549, 1, 1, 1}
+
+// RSASSAPSS identifies an RSA key restricted to RSASSA-PSS (RFC 4055); the key material is that of rsaEncryption.
+var RSASSAPSS = asn1.ObjectIdentifier{1, 2, 840, 113549, 1, 1, 10}
